@@ -361,6 +361,49 @@ func copyFact(p, s *pkg) (bool, error) {
 	return copies, nil
 }
 
+
+// readLoopFact fingerprints a `for { nr, err := r.Read(buf); if nr > 0 {…}; if err != nil {…} }` loop:
+// true if the data (`nr > 0`) is handled before the error is looked at (an io.Reader may return data
+// together with io.EOF or another error), false if the error check comes first; any other loop
+// body is an unrecognised shape.
+func readLoopFact(p *pkg, name string, loop *ast.ForStmt) (bool, error) {
+	if loop == nil || loop.Cond != nil || loop.Init != nil || loop.Post != nil {
+		return false, fmt.Errorf("%s: read loop not found", name)
+	}
+	l := loop.Body.List
+	if len(l) != 3 || !strings.HasPrefix(p.Src(l[0]), "nr, err := r.Read(payloadBuf") {
+		return false, fmt.Errorf("%s: unrecognised read loop: %s", name, p.Src(loop.Body))
+	}
+	conds := []string{}
+	for _, st := range l[1:] {
+		ifs, ok := st.(*ast.IfStmt)
+		if !ok || ifs.Init != nil || ifs.Else != nil {
+			return false, fmt.Errorf("%s: unrecognised statement in the read loop: %s", name, p.Src(st))
+		}
+		conds = append(conds, p.Src(ifs.Cond))
+	}
+	switch {
+	case conds[0] == "nr > 0" && conds[1] == "err != nil":
+		return true, nil
+	case conds[0] == "err != nil" && conds[1] == "nr > 0":
+		return false, nil
+	}
+	return false, fmt.Errorf("%s: unrecognised conditions in the read loop: %v", name, conds)
+}
+
+func topLoop(stmts []ast.Stmt) *ast.ForStmt {
+	var found *ast.ForStmt
+	for _, st := range stmts {
+		if f, ok := st.(*ast.ForStmt); ok {
+			if found != nil {
+				return nil
+			}
+			found = f
+		}
+	}
+	return found
+}
+
 func main() {
 	gen.Main("C01", func(c *gen.Ctx, l *gen.Lean) error {
 		p, err := load(c.Repo, "ss2022")
@@ -417,6 +460,31 @@ func main() {
 			return err
 		}
 		l.BoolDef("decryptAdvancesOnlyOnSuccess", f5, "ss2022.(*ShadowStreamCipher).Decrypt{InPlace,To,Append} increment the nonce only when the AEAD open succeeded")
+		rf, err := p.Func("*ShadowStreamConn", "ReadFrom")
+		if err != nil {
+			return err
+		}
+		f7, err := readLoopFact(p, "ShadowStreamConn.ReadFrom", topLoop(rf.Body.List))
+		if err != nil {
+			return err
+		}
+		l.BoolDef("readFromHandlesDataFirst", f7, "the loop of ss2022.(*ShadowStreamConn).ReadFrom writes the bytes of a read before it looks at the read's error")
+		rg, err := p.Func("*ShadowStreamServerConn", "readFromGeneric")
+		if err != nil {
+			return err
+		}
+		var firstBlock *ast.IfStmt
+		if len(rg.Body.List) > 0 {
+			firstBlock, _ = rg.Body.List[0].(*ast.IfStmt)
+		}
+		if firstBlock == nil || p.Src(firstBlock.Cond) != "c.ShadowStreamConn.writeCipher == nil" {
+			return fmt.Errorf("readFromGeneric: first-write block not found")
+		}
+		f8, err := readLoopFact(p, "ShadowStreamServerConn.readFromGeneric", topLoop(firstBlock.Body.List))
+		if err != nil {
+			return err
+		}
+		l.BoolDef("serverFirstReadHandlesDataFirst", f8, "the first-chunk loop of ss2022.(*ShadowStreamServerConn).readFromGeneric sends the bytes of a read before it looks at the read's error")
 		f6, err := copyFact(p, s)
 		if err != nil {
 			return err
